@@ -47,7 +47,13 @@ EXP_BIG_BASES = [0, 1, 2, 3, W - 1]
 
 def grid_shapes(ctx):
     rnd = ctx.rng("binopgrid")
-    lits = lit_boundary() + [rnd.randrange(-HALF, W) for _ in range(3)]
+    lits = lit_boundary()
+    if ctx.tier != "thorough":
+        # quick: the boundary values every rule looks at + a seeded part of the rest
+        core = [0, 1, 2, 8, 256, HALF - 1, HALF, HALF + 1, W - 2, W - 1, -1, -2, -HALF, -HALF + 1]
+        rest = [v for v in lits if v not in core]
+        lits = core + rnd.sample(rest, 6)
+    lits = lits + [rnd.randrange(-HALF, W) for _ in range(3)]
     a = [("lit", v) for v in lits] + [("var", "x"), ("var", "y"), ("var", "calldatasize"), ("cx", 1),
                                       ("bin", "add", ("var", "x"), ("lit", 1)), ("un", "iszero", ("var", "x"))]
     b = [("lit", v) for v in lits] + [("var", "x"), ("var", "y"), ("cx", 1), ("cx", 2),
@@ -78,8 +84,13 @@ def binop_grid_tie(ctx, differ):
             f"Definition EAB := [{'; '.join(coq_of(s) for s in exp_a_big)}].\n"
             f"Definition EBB := [{'; '.join(coq_of(s) for s in exp_b_big)}].\n")
     exprs, meta = [], []
+    pcs = list(PCS)
+    if ctx.tier != "thorough":
+        # PAssert behaves like PIf and POther like PNone in the code under test; quick keeps one of the two
+        drop = ctx.rng("pcs").choice(["PAssert", "POther"])
+        pcs = [p for p in pcs if p[0] != drop]
     for op in BOPS_ARITH:
-        for pcn, pv in PCS:
+        for pcn, pv in pcs:
             doms = [("AS", "BS", A, B)] if op != "exp" else [("AS", "EBS", A, exp_b_small), ("EAB", "EBB", exp_a_big, exp_b_big)]
             for da, db, la, lb in doms:
                 exprs.append(f"map (fun p => show_res (opt_binop B_{op} (fst p) (snd p) {pcn})) (list_prod {da} {db})")
@@ -210,14 +221,33 @@ def tree_tie(ctx, differ):
                 cases.append((t, ev, c15_tree.coq_of_node(node), c15_tree.show_node(node)))
         except Exception:  # noqa: generator produced something the IRnode constructor rejects
             continue
+    # generated seq lists made of mergeable runs (exact-output tie of the merge functions through optimize)
+    nseq = 250 if ctx.tier != "thorough" else 2000
+    k = 0
+    while k < nseq:
+        body = []
+        for _ in range(rnd.randrange(1, 5)):
+            body += c15_tree.gen_run(rnd)
+            if rnd.random() < 0.3:
+                body.append(rnd.choice([["seq"], "pass", ["sstore", 0, 1], ["mstore", "x", 0]]))
+        t = ["seq"] + body + [["stop"]]
+        ev = rnd.choice(["cancun", "shanghai"])
+        with anchor_settings(Settings(evm_version=ev)):
+            node = IRnode.from_list(t)
+            cases.append((t, ev, c15_tree.coq_of_node(node), c15_tree.show_node(node)))
+        k += 1
     imports = ("From Verif Require Import Base.PyInt C15.Syntax C15.GenUtils C15.Optimizer C15.OptTree.\n"
                "Open Scope string_scope.\n")
     exprs = [f"show_opt (optimize {'true' if ev == 'cancun' else 'false'} {c})" for (_t, ev, c, _s) in cases]
     outs = coqrun.eval_cases(imports, exprs, "c15tree", shard=(len(exprs) + 2) // 3, timeout=220)
-    changed, merged, outcomes, mism = 0, 0, {}, []
+    changed, merged, outcomes, mism, declined = 0, 0, {}, [], 0
     for (t, ev, _c, s0), o in zip(cases, outs):
         m = o.strip('"')
         r = c15_tree.real_optimize(t, ev)
+        if m == "DECLINED":
+            # a mergeable node with a negative literal offset/length: the model makes no claim (see notes)
+            declined += 1
+            continue
         if r != s0:
             changed += 1
         k = r if r in ("STATIC", "ASSERT") or r.startswith("EXC") else "tree"
@@ -232,6 +262,9 @@ def tree_tie(ctx, differ):
     ctx.corr["tree_cases_rewritten"] = changed
     ctx.corr["tree_cases_with_merge"] = merged
     ctx.corr["tree_outcomes"] = outcomes
+    ctx.corr["tree_cases_declined"] = declined
+    if declined * 20 > len(cases):
+        ctx.violation("correspondence-broken", "the optimize model declines too many trees", {"declined": declined})
     found = False
     for t, ev, s0, r, m in mism[:6]:
         # Search: execute the very tree with and without the optimiser (wrapped so that it leaves a result)
@@ -256,34 +289,60 @@ def tree_tie(ctx, differ):
 
 
 def peephole_tie(ctx):
-    """exact output equality: real _stack_peephole_opts / _merge_iszero vs the Coq model, on generated
-    stack code containing every pattern and on unoptimised assemblies of the example contracts."""
+    """exact output equality: every pass of evm/assembler/optimizer.py and optimize_assembly itself vs the Coq models
+    (Peephole.v, JumpOpt.v) on generated stack code / labelled code containing every pattern and on the unoptimised
+    assemblies (runtime + deploy) the compiler emits for the corpus contracts."""
     rnd = ctx.rng("asm")
-    k = 300 if ctx.tier != "thorough" else 1500
-    asms = [c15_asm.gen_asm(rnd, rnd.randrange(3, 40)) for _ in range(k)]
+    k = 150 if ctx.tier != "thorough" else 1000
+    asms = [("gen", c15_asm.gen_asm(rnd, rnd.randrange(3, 40))) for _ in range(k)]
+    asms += [("genl", c15_asm.gen_labelled_asm(rnd, rnd.randrange(3, 45))) for _ in range(2 * k)]
+    names = None
+    if ctx.tier != "thorough":
+        from vlib.c02_corpus import CORPUS
+        from vlib.c15_corpus import OWN
+        names = set(rnd.sample([c["name"] for c in CORPUS], 5) + [c["name"] for c in OWN][:3])
     try:
-        corpus = c15_asm.corpus_assemblies()
+        corpus = c15_asm.corpus_assemblies(names)
     except Exception:  # noqa
         corpus = []
     asms += corpus
-    imports = "From Verif Require Import Base.PyInt C15.Peephole.\nOpen Scope string_scope.\n"
-    exprs = []
-    for a in asms:
-        exprs.append(f"show_asm (stack_peephole {c15_asm.coq_items(a)})")
-        exprs.append(f"show_asm (merge_iszero {c15_asm.coq_items(a)})")
-    outs = coqrun.eval_cases(imports, exprs, "c15asm", shard=(len(exprs) + 2) // 3, timeout=200)
+    has_jump = (COQ / "C15" / "JumpOpt.vo").exists()
+    passes = [("_stack_peephole_opts", "show_items (stack_peephole {})"), ("_merge_iszero", "show_items (merge_iszero {})")]
+    if has_jump:
+        passes += [("_prune_unreachable_code", "show_items (Ok (prune_unreachable {}))"),
+                   ("_prune_inefficient_jumps", "show_items (Ok (prune_inefficient_jumps {}))"),
+                   ("_optimize_inefficient_jumps", "show_items (Ok (optimize_inefficient_jumps {}))"),
+                   ("_merge_jumpdests", "show_items (Ok (snd (merge_jumpdests {})))"),
+                   ("_prune_unused_jumpdests", "show_items (Ok (prune_unused_jumpdests {}))"),
+                   ("optimize_assembly", "show_items (optimize_assembly {})")]
+    imports = ("From Verif Require Import Base.PyInt C15.Peephole" + (" C15.JumpOpt" if has_jump else "") + ".\n"
+               "Open Scope string_scope.\n"
+               "Definition show_items (r : res (list item)) : list string := "
+               "match r with Ok l => map show_item l | Err Raised => [\"PANIC\"] | Err _ => [\"E\"] end.\n")
+    exprs, meta = [], []
+    for i, (_nm, a) in enumerate(asms):
+        defs = c15_asm.coq_items(a)
+        for fn, tmpl in passes:
+            if len(a) > 400 and fn not in ("optimize_assembly", "_merge_jumpdests", "_prune_unused_jumpdests"):
+                continue      # big corpus assemblies: the whole-pipeline model and the two global passes
+            exprs.append(tmpl.format(defs))
+            meta.append((i, fn))
+    outs = coqrun.eval_cases(imports, exprs, "c15asm", shard=(len(exprs) + 2) // 3, timeout=220)
     changed, bad = 0, None
-    for i, a in enumerate(asms):
-        for j, fn in enumerate(["_stack_peephole_opts", "_merge_iszero"]):
-            r = c15_asm.real_pass(fn, a)
-            m = outs[2 * i + j].strip('"')
-            if r != c15_asm.show(a):
-                changed += 1
-            if r != m and bad is None:
-                bad = {"function": fn, "assembly": c15_asm.show(a), "real": r, "model": m}
-    ctx.corr["peephole_cases"] = 2 * len(asms)
+    for (i, fn), o in zip(meta, outs):
+        a = asms[i][1]
+        m = STRS.findall(o)
+        r = c15_asm.real_pass(fn, a)
+        if r != [c15_asm.show_item(x) for x in a]:
+            changed += 1
+        if r != m and bad is None:
+            j = next((q for q in range(min(len(r), len(m))) if r[q] != m[q]), min(len(r), len(m)))
+            bad = {"function": fn, "source": asms[i][0], "assembly": c15_asm.show(a)[:3000], "first_difference_at": j,
+                   "real": " ".join(r[max(0, j - 5):j + 8]), "model": " ".join(m[max(0, j - 5):j + 8])}
+    ctx.corr["peephole_cases"] = len(exprs)
     ctx.corr["peephole_cases_rewritten"] = changed
-    ctx.corr["peephole_corpus_chunks"] = len(corpus)
+    ctx.corr["peephole_corpus_assemblies"] = len(corpus)
+    ctx.corr["peephole_corpus_items"] = sum(len(a) for _n, a in corpus)
     # observation / Search: stack programs with every window, with and without optimize_assembly, on the EVM
     from vlib.evm import Chain
     npat, diff = c15_asm.pattern_evm_differential(Chain("cancun"), ctx.rng("asmevm"))
@@ -293,7 +352,7 @@ def peephole_tie(ctx):
                       key="asmopt:" + diff["assembly"][-60:])
     elif bad is not None:
         ctx.violation("correspondence-broken", "Peephole model != real assembly optimiser pass (exact output)", bad)
-    return 2 * len(asms) + npat
+    return len(exprs) + npat
 
 
 def glue_corpus(ctx):
@@ -358,7 +417,7 @@ def run(ctx):
     t0 = time.time()
     b = {"ok": False}
     files = ["C15/GenUtils.v", "C15/Optimizer.v", "C15/OptTree.v", "C15/FoldSound.v", "C15/PropsFold.v", "C15/OptSound.v",
-             "C15/OptTreeSound.v", "C15/PropsOpt.v", "C15/Peephole.v", "C15/PeepholeSound.v", "C15/PropsPeephole.v"]
+             "C15/OptTreeSound.v", "C15/MergeSound.v", "C15/PropsOpt.v", "C15/Peephole.v", "C15/PeepholeSound.v", "C15/PropsPeephole.v"]
     if gen_err is None:
         b = ctx.coq_build(files)
     model_ok = gen_err is None and (COQ / "C15" / "OptTree.vo").exists() and \
